@@ -7,6 +7,15 @@ void GMGPolar::solve()
     LIKWID_START("Solve");
     auto start_solve = std::chrono::high_resolution_clock::now();
 
+    /* ------------------------------------ */
+    /* Reset the state of any earlier solve */
+    /* ------------------------------------ */
+    residual_norms_.clear();
+    if (extrapolation_ == ExtrapolationType::COMBINED) {
+        /* The combined mode starts every solve with full grid smoothing, as set up. */
+        full_grid_smoothing_ = true;
+    }
+
     /* ---------------------------- */
     /* Initialize starting solution */
     /* ---------------------------- */
